@@ -20,6 +20,8 @@ import (
 	"go/format"
 	"go/parser"
 	"go/token"
+
+	"golang.org/x/tools/go/ast/astutil"
 )
 
 type delit struct {
@@ -27,6 +29,8 @@ type delit struct {
 	done  int    // literals rewritten
 	curFn string // "package|receiver|name" of the declaration being rewritten
 	bare  []ast.Expr // named results of the literal being lowered (what a bare return yields)
+
+	importsMaps bool // the file imports the standard library's "maps" under its own name
 }
 
 func (d *delit) tmp() *ast.Ident {
@@ -96,6 +100,10 @@ func (d *delit) rewriteStmt(s ast.Stmt) []ast.Stmt {
 			}
 		}
 	case *ast.ExprStmt:
+		if r := d.canonMapsCopy(x); r != nil {
+			d.done++
+			return []ast.Stmt{r}
+		}
 		if _, gen, ok := d.lower(x.X); ok {
 			d.done++
 			return []ast.Stmt{&ast.BlockStmt{List: gen(nil)}}
@@ -124,7 +132,7 @@ func (d *delit) rewriteStmt(s ast.Stmt) []ast.Stmt {
 		}
 	case *ast.IfStmt:
 		// if x := IIFE; cond { … }
-		if as, isAs := x.Init.(*ast.AssignStmt); isAs && len(as.Rhs) == 1 && as.Tok == token.DEFINE {
+		if as, isAs := x.Init.(*ast.AssignStmt); isAs && len(as.Rhs) == 1 && (as.Tok == token.DEFINE || as.Tok == token.ASSIGN) {
 			if fl, gen, ok := d.lower(as.Rhs[0]); ok && nResults(fl) == len(as.Lhs) && nResults(fl) > 0 {
 				d.done++
 				decls, ids := d.declTemps(fl)
@@ -180,6 +188,12 @@ func deliteralize(filename string, src []byte) ([]byte, int) {
 			return src, total
 		}
 		before := d.done
+		d.importsMaps = false
+		for _, im := range f.Imports {
+			if im.Path.Value == `"maps"` && im.Name == nil {
+				d.importsMaps = true
+			}
+		}
 		ast.Inspect(f, func(n ast.Node) bool {
 			switch x := n.(type) {
 			case *ast.FuncDecl:
@@ -197,6 +211,9 @@ func deliteralize(filename string, src []byte) ([]byte, int) {
 			break
 		}
 		total += d.done - before
+		if d.importsMaps && !astutil.UsesImport(f, "maps") {
+			astutil.DeleteImport(fset, f, "maps")
+		}
 		// comments are dropped: their positions no longer fit the rewritten statements
 		f.Comments = nil
 		var buf bytes.Buffer
